@@ -1,7 +1,10 @@
 (** non-vacuity for C16: a concrete data set with three edges sharing one timestamp, a getter that
     meets [honours], arguments that meet [args_ok], and non-trivial pages / walks *)
-From Coq Require Import List NArith ZArith Bool.
-From ApiFu Require Import Base.Sexp TimeConn.TimeModel TimeConn.TimeSpec TimeConn.TimeProofs.
+From Coq Require Import List NArith ZArith Bool Lia.
+From ApiFu Require Import Base.Sexp TimeConn.TimeModel TimeConn.TimeSpec TimeConn.TimeProofs
+  TimeConn.TimeErrModel TimeConn.TimeErrProofs TimeConn.TimeCursorCodec TimeConn.TimeCursorCodecProofs
+  TimeConn.GoTimeModel TimeConn.GoTimeProofs TimeConn.DateTimeModel TimeConn.TimeCostProofs.
+From ApiFu Require Cost.CostModel.
 Import ListNotations.
 Open Scope Z_scope.
 
@@ -70,3 +73,143 @@ Example walk_fuel_tight :
   walk_fwd current (g_exact E20) 6 all_sync 1 None None CAbsent
   = WDone [(100, b_a); (100, b_b); (100, b_c); (200, b_a); (200, b_b); (300, b_a)].
 Proof. vm_compute. split; reflexivity. Qed.
+
+(** ** Stage B: failing getter calls, totalCount *)
+
+(** three range queries (after and before cursors on different timestamps) *)
+Definition a_three : args :=
+  {| a_first := Some 10; a_last := None; a_after := CCursor (100, b_a); a_before := CCursor (300, b_a);
+     a_from := None; a_to := None |}.
+Definition px (promise : bool) (e : gerr) : xpres :=
+  {| xp := {| by_promise := promise; nil_when_empty := false |}; xerr := e |}.
+Definition s_both : sel := {| want_info := true; want_total := true |}.
+
+(** call 0 through a promise that fails (error 0), call 1 synchronously and fine, call 2 fails
+    synchronously (error 2): the synchronous error wins although the failing promise was obtained
+    first, all three queries were issued, ResolveTotalCount is not called, no page *)
+Example sync_error_beats_earlier_promise_error :
+  let ps := fun i => match i with O => px true (Err 0) | 1%nat => px false NoErr | _ => px false (Err 2) end in
+  winner ps (queries_of a_three) = Some (2, 3%nat) /\
+  xconn current true (g_exact E20) ps s_both (TCVal 6) a_three
+  = (XFieldError [EGetter 2], [mkq 100 100 0; mkq 300 300 0; mkq 101 299 11], Some O).
+Proof. vm_compute. split; reflexivity. Qed.
+
+(** call 1 fails synchronously: the middle query is never issued *)
+Example sync_error_cuts_the_loop :
+  let ps := fun i => match i with 1%nat => px false (Err 1) | _ => px true NoErr end in
+  xconn current true (g_exact E20) ps s_both (TCVal 6) a_three
+  = (XFieldError [EGetter 1], [mkq 100 100 0; mkq 300 300 0], Some O).
+Proof. vm_compute. reflexivity. Qed.
+
+(** two failing promises: the first in issue order wins *)
+Example first_promise_error_wins :
+  let ps := fun i => match i with O => px false NoErr | 1%nat => px true (Err 1) | _ => px true (Err 2) end in
+  fst (fst (xconn current true (g_exact E20) ps s_both (TCVal 6) a_three)) = XFieldError [EGetter 1].
+Proof. vm_compute. reflexivity. Qed.
+
+(** a mixed hand-over without failures: synchronous results and promised results both arrive;
+    totalCount is the application's answer *)
+Example mixed_handover_with_total :
+  let ps := fun i => match i with 1%nat => px true NoErr | _ => px false TypedNilErr end in
+  fst (fst (xconn current true (g_exact E20) ps s_both (TCVal 6) a_three))
+  = XPage [(100, b_b); (100, b_c); (200, b_a); (200, b_b)]
+      (Some {| has_prev := true; has_next := false; start_c := Some (100, b_b); end_c := Some (200, b_b) |})
+      (Some 6)
+  /\ TimeRef E20 a_three = [(100, b_b); (100, b_c); (200, b_a); (200, b_b)].
+Proof. vm_compute. split; reflexivity. Qed.
+
+(** a failing totalCount nulls the field; first = 0 without pageInfo fetches nothing *)
+Example total_count_error_and_lazy_path :
+  fst (fst (xconn current true (g_exact E20) (fun _ => px false NoErr) s_both (TCErr 7) a_three)) = XFieldError [ETotal 7]
+  /\ xconn current true (g_exact E20) (fun _ => px false (Err 9)) {| want_info := false; want_total := true |} (TCVal 6)
+       {| a_first := Some 0; a_last := None; a_after := CAbsent; a_before := CAbsent; a_from := None; a_to := None |}
+     = (XPage [] None (Some 6), [], Some 1%nat).
+Proof. vm_compute. split; reflexivity. Qed.
+
+(** promises resolving in the order 2, 0, 1: the error of promise 1 (the first failing one in
+    issue order), although promise 2 failed earlier in time *)
+Example join_out_of_order :
+  join_sched [PVal (GSlice [(100, b_a)]); PErr 1; PErr 2] [2%nat; 0%nat; 1%nat] = JErr 1
+  /\ join_sched [PVal (GSlice [(100, b_a)]); PErr 1; PErr 2] [2%nat; 0%nat] = JWait 1 [GSlice [(100, b_a)]]
+  /\ join_sched [PVal (GSlice [(100, b_a)]); PVal GNil] [1%nat; 0%nat] = JDone [GSlice [(100, b_a)]; GNil].
+Proof. vm_compute. repeat split. Qed.
+
+(** ** Stage B: the strings that travel, time.Time, cost *)
+
+(** the cursor of edge (1577836800000000000, "a") is the string the real server emits for
+    2020-01-01T00:00:00Z / "a": gqROYW5v0xXlmjW5igAAoklkoWE *)
+Example cursor_string :
+  tb_encode (1577836800000000000, b_a)
+  = [103;113;82;79;89;87;53;118;48;120;88;108;109;106;87;53;105;103;65;65;111;107;108;107;111;87;69]%N
+  /\ tb_decode (tb_encode (1577836800000000000, b_a)) = DCur (1577836800000000000, b_a)
+  /\ wire_ok (1577836800000000000, b_a).
+Proof.
+  split; [vm_compute; reflexivity|]. split; [vm_compute; reflexivity|].
+  apply wire_okb_ok. vm_compute. reflexivity.
+Qed.
+
+(** hand-made documents: nil is the zero cursor, an array assigns the fields in order, a later
+    duplicate key wins, an unknown key is outside the model, a truncated integer is invalid *)
+Example cursor_documents :
+  mp_decode_tb [192]%N = DCur (0, [])
+  /\ mp_decode_tb [146; 100; 161; 98]%N = DCur (100, b_b)
+  /\ mp_decode_tb [131; 164;78;97;110;111; 1; 164;78;97;110;111; 100; 162;73;100; 161; 98]%N = DCur (100, b_b)
+  /\ mp_decode_tb [129; 161; 120; 1]%N = DOut
+  /\ mp_decode_tb [129; 164;78;97;110;111; 211; 0; 0]%N = DNil.
+Proof. vm_compute. repeat split. Qed.
+
+(** walking by the strings: the hypotheses of the string-level walk theorems are met by E20 *)
+Example walk_by_strings :
+  (forall e, In e E20 -> wire_ok e) /\
+  walk_fwd_wire (g_exact E20) 7 all_sync 2 None None None
+  = WDone [(100, b_a); (100, b_b); (100, b_c); (200, b_a); (200, b_b); (300, b_a)].
+Proof.
+  split; [|vm_compute; reflexivity].
+  intros e He.
+  repeat (destruct He as [<-|He]; [apply wire_okb_ok; vm_compute; reflexivity|]).
+  destruct He.
+Qed.
+
+(** DateTime strings: the zero time, a fraction of more than nine digits, the year -1 through a
+    zone offset; a one-digit hour is left to Go's lenient fallback parser (outside the model) *)
+Definition ascii_bytes (l : list N) : bytes := l.
+Example datetime_strings :
+  parse_rfc3339 [48;48;48;49;45;48;49;45;48;49;84;48;48;58;48;48;58;48;48;90]%N = PDTime zero_time
+  /\ parse_rfc3339 [50;48;50;48;45;48;49;45;48;49;84;48;48;58;48;48;58;48;48;46;49;50;51;52;53;54;55;56;57;49;90]%N
+     = PDTime 1577836800123456789
+  /\ parse_rfc3339 [48;48;48;48;45;48;49;45;48;49;84;48;48;58;48;48;58;48;48;43;50;51;58;53;57]%N
+     = PDTime (-62167305540000000000)
+  /\ parse_rfc3339 [50;48;50;48;45;48;49;45;48;49;84;48;58;48;48;58;48;48;90]%N = PDOut.
+Proof. vm_compute. repeat split. Qed.
+
+(** time.Time: a beforeTime of the year 9999 in zone -23:59 and an atOrAfterTime before Go's zero
+    time meet [opt_wf]; the time-level queries are the integer ones *)
+Definition t_far_to : gtime := {| gsec := 253402300799 + 86340 + unix_to_internal; gnsec := 999999999; gmono := None; gloc := -86340 |}.
+Definition t_far_from : gtime := {| gsec := -86340; gnsec := 0; gmono := None; gloc := 86340 |}.
+Example far_arguments :
+  g_wf t_far_to /\ g_wf t_far_from /\ inst t_far_from < zero_time /\ distant_future < inst t_far_to /\
+  map inst_query (range_queries_t (Some (9223372036854775807, b_a)) None (Some t_far_from) (Some t_far_to) 3)
+  = [mkq 9223372036854775807 9223372036854775807 0; mkq 9223372036854775808 (inst t_far_to - 1) 3].
+Proof.
+  split; [unfold g_wf, t_far_to, giga, unix_to_internal; cbn [gsec gnsec gmono]; repeat split; lia|].
+  split; [unfold g_wf, t_far_from, giga; cbn [gsec gnsec gmono]; repeat split; lia|].
+  split; [vm_compute; reflexivity|]. split; [vm_compute; reflexivity|].
+  vm_compute. reflexivity.
+Qed.
+
+(** cost: last:2 over E20 — resolver cost 1, edge multiplier 2, two edges returned *)
+Example cost_of_a_page :
+  let a := {| a_first := None; a_last := Some 2; a_after := CAbsent; a_before := CAbsent; a_from := None; a_to := None |} in
+  edges_multiplier a {| CostModel.k_user := tt; CostModel.k_max_edge := None |} = Some 2
+  /\ length (TimeRef E20 a) = 2%nat.
+Proof. vm_compute. split; reflexivity. Qed.
+
+(** a promise resolving to a non-slice value beside a failing promise: the real error wins (the
+    callback that would reject the value is never called); alone it is the non-slice error *)
+Example non_slice_answers :
+  (let ps := fun i => match i with O => px true BadValue | 1%nat => px true (Err 1) | _ => px false NoErr end in
+   fst (fst (xconn current true (g_exact E20) ps s_both (TCVal 6) a_three)) = XFieldError [EGetter 1])
+  /\ (let ps := fun i => match i with O => px true BadValue | _ => px false NoErr end in
+      fst (fst (xconn current true (g_exact E20) ps s_both (TCVal 6) a_three)) = XFieldError [ENonSlice])
+  /\ no_bad (fun _ => px true NoErr).
+Proof. split; [vm_compute; reflexivity|]. split; [vm_compute; reflexivity|]. intros j. discriminate. Qed.
